@@ -185,7 +185,7 @@ VSS_GHOSTS = (GHOSTS + 'unsigned vp_mode, vp_plen, vp_dlen;\n'
               ' * model cannot read back a pointer stored into the untyped bytes that is_fresh allocates */\n'
               '#ifdef VP_TYPED_VAL\nVssData_t vp_val_obj;\n#define VP_VAL_FRESH(val) ((val) == &vp_val_obj)\n#else\n#define VP_VAL_FRESH(val) __CPROVER_is_fresh(val, sizeof(VssData_t))\n#endif\n'
               '/* bounded FALLBACK build only (-DVP_FB_ELEMS=n): values of at most n elements */\n'
-              '#ifdef VP_FB_ELEMS\n#define VP_FB_REQ(w) (vp_dlen <= VP_FB_ELEMS * (w) && vp_plen <= 16u)\n#else\n#define VP_FB_REQ(w) 1\n#endif\n')
+              '#if defined(VP_FB_ELEMS)\n#define VP_FB_REQ(w) (vp_dlen <= VP_FB_ELEMS * (w) && vp_plen <= 16u)\n#elif defined(VP_FB_TOP)\n#define VP_FB_REQ(w) (vp_dlen + 2u * (w) > 65535u && vp_plen <= 16u)\n#else\n#define VP_FB_REQ(w) 1\n#endif\n')
 VSS_HAVOC = HAVOC_GHOSTS + '    vp_mode = nondet_uint(); vp_plen = nondet_uint(); vp_dlen = nondet_uint();\n'
 
 
@@ -266,6 +266,13 @@ def vss_jobs(model, tier, config='le'):
                          extra_cc=['-DVP_FB_ELEMS=%du' % FB], unwind={fn: FB + 2}, assumptions=assume,
                          bounded='BOUNDED FALLBACK (loop contract not attachable to the rewritten loop): values of at most %d elements, '
                                  'interop paths of at most 16 bytes, loops unwound %d times with unwinding assertions' % (FB, FB + 2))
+                # boundary probe: the longest values the 16-bit length can express, same short unwinding: a loop that (wrongly) runs
+                # only a few times there - a wrapped 16-bit bound - produces a real counterexample; a correct loop just hits the bound
+                fb.probes = [Job('%s/%s~top-of-range-probe' % (fn, lab), tu.text(), srcs, enforce=fn, replace=repl,
+                                 owners={'post': [pid], 'safety': [pid], 'assigns': [pid, 'C16'], 'loop': [pid], 'unwind': [pid]},
+                                 clause_map=cm, function=fn, kind='vss-' + side + '-fallback', config=config, timeout=900, obj_bits=10,
+                                 extra_cc=['-DVP_FB_TOP'], unwind={fn: 3}, assumptions=assume, canary=False,
+                                 bounded='BOUNDARY PROBE of the bounded fallback: the last two element counts below 65536 bytes, loops unwound 3 times')]
             jobs.append(Job('%s/%s' % (fn, lab), tu.text(), srcs, enforce=fn, replace=repl,
                             loop_contracts=lc, owners={'post': [pid], 'safety': [pid], 'assigns': [pid, 'C16'], 'loop': [pid]},
                             clause_map=cm, function=fn, kind='vss-' + side, config=config, timeout=2400, obj_bits=10,
